@@ -437,6 +437,66 @@ def session_protocol(ctx, bt, n):
     ctx.protocols.append(("session", len(meta), nd))
 
 
+# ---------------------------------------------------------------- benchmark_random (bt/backtest.py): backtests built from a template
+def gen_benchmark_case(rng):
+    T = rng.randint(12, 30)
+    names = R.TICKERS[:rng.randint(2, 4)]
+    dates, _ = R.gen_index(rng, T, "B")
+    prices = R.gen_paths(rng, names, T, "float", late=0.0)
+    return {"benchmark": True, "dates": dates, "names": names, "prices": prices, "nsim": rng.randint(1, 3), "seed": rng.randint(0, 10 ** 6),
+            "k": rng.randint(1, len(names)), "weigher": rng.choice(["WeighRandomly", "WeighEqually"]), "prerun": rng.random() < 0.5,
+            "tname": rng.choice(["rnd", "random_0", "skill-less"])}
+
+
+def run_benchmark_case(ctx, bt, case):
+    """`benchmark_random(backtest, random_strategy, nsim)` constructs and runs nsim backtests of the caller's template: the template and
+    the data are not modified, a backtest that has already run is not run again, and with the seeds fixed a second call gives the same
+    price frame"""
+    a = bt.algos
+    rd = case
+    data = R.frame(case["prices"], case["dates"])
+
+    def template():
+        w = a.WeighRandomly() if case["weigher"] == "WeighRandomly" else a.WeighEqually()
+        return bt.Strategy(case["tname"], [a.RunWeekly(), a.SelectAll(), a.SelectRandomly(case["k"]), w, a.Rebalance()])
+
+    def once():
+        mine = bt.Strategy("mine", [a.RunWeekly(), a.SelectAll(), a.WeighEqually(), a.Rebalance()])
+        b = bt.Backtest(mine, data, progress_bar=False)
+        calls = []
+        if case["prerun"]:
+            b.run()
+            inner = b.strategy.run
+            b.strategy.run = lambda *x, **k: (calls.append(1), inner(*x, **k))[1]
+        t = template()
+        t_before, d_before = canon(t), canon(data)
+        random.seed(case["seed"])
+        np.random.seed(case["seed"] % (2 ** 32))
+        res = bt.backtest.benchmark_random(b, t, nsim=case["nsim"])
+        return t, t_before, d_before, res, calls
+
+    try:
+        t, t_before, d_before, res, calls = once()
+    except Exception as e:  # noqa
+        ctx.count("benchmark_random:raised:" + type(e).__name__)
+        return
+    ctx.count("benchmark_random:cases")
+    if canon(t) != t_before:
+        after = canon(t)
+        what = "name %r -> %r" % (case["tname"], t.name) if t.name != case["tname"] else "some attribute"
+        ctx.violation("C11/template-mutated:benchmark_random", "benchmark_random changed the caller's strategy template (%s)" % what, rd)
+    if canon(data) != d_before:
+        ctx.violation("C11/input-frame-mutated:benchmark_random", "benchmark_random changed the caller's price frame", rd)
+    if calls:
+        ctx.violation("C11/rerun:benchmark_random", "benchmark_random ran the algos of a backtest that had already run (%d calls)" % len(calls), rd)
+    try:
+        _, _, _, res2, _ = once()
+        if canon(res.prices) != canon(res2.prices):
+            ctx.violation("C11/not-repeatable:benchmark_random", "two calls of benchmark_random with the same seeds gave different price frames", rd)
+    except Exception as e:  # noqa
+        ctx.count("benchmark_random:second-call-raised:" + type(e).__name__)
+
+
 def run(ctx, bt, scale=1):
     import ffn as _ffn
     orig = _ffn.calc_erc_weights
@@ -452,6 +512,14 @@ def run(ctx, bt, scale=1):
 
 
 def _run(ctx, bt, scale=1):
+    # witnesses of repaired defects run first (regression cases)
+    import glob
+    for f in sorted(glob.glob(os.path.join(os.path.dirname(os.path.dirname(os.path.dirname(os.path.abspath(__file__)))), "corpus", "C11_*.json"))):
+        cs = json.load(open(f)).get("case")
+        if isinstance(cs, dict) and cs.get("benchmark"):
+            ctx.count("corpus-witnesses-run")
+            ctx.evaluations += 1
+            run_benchmark_case(ctx, bt, cs)
     for _ in range(ctx.scale(12, 200) * scale):
         ctx.evaluations += 1
         try:
@@ -460,6 +528,9 @@ def _run(ctx, bt, scale=1):
             ctx.count("shared-dict-case-raised:" + E.classify_exc(e))
     if scale == 1:
         session_protocol(ctx, bt, ctx.scale(25, 400))
+    for _ in range(ctx.scale(6, 60) * scale):
+        ctx.evaluations += 1
+        run_benchmark_case(ctx, bt, gen_benchmark_case(ctx.rng))
     specs = []
     for _ in range(ctx.scale(45, 900) * scale):
         case = gen_case(ctx.rng, estimation=(_ % 4 == 3))
@@ -488,6 +559,8 @@ def replay(bt, data, ctx):
         import random as _r
         shared_dict_case(ctx, bt, _r.Random(0))
         return
+    if case.get("benchmark"):
+        return run_benchmark_case(ctx, bt, case)
     if "child_spec" in case:
         child_runs(ctx, bt, [case["child_spec"]])
     else:
